@@ -5,6 +5,8 @@ import (
 	"fmt"
 	"os"
 	"reflect"
+	"strconv"
+	"strings"
 	"time"
 	"unsafe"
 
@@ -16,8 +18,100 @@ import (
 	"github.com/welllog/golib/zzsim/core"
 )
 
+// ringAPI is the ring seen through int values; the element type of the real ring varies per
+// case (elem): a change that is wrong only for some instantiation (a pointer-free fast path,
+// a size-dependent layout, a torn multi-word value) must not hide behind SyncRing[int].
+type ringAPI interface {
+	Push(int) bool
+	Pop() (int, bool)
+	PushWait(int, time.Duration) bool
+	PopWait(time.Duration) (int, bool)
+	Len() int
+	IsEmpty() bool
+	IsFull() bool
+	Cap() int
+}
+
+type ringOf[T any] struct {
+	r   ringz.SyncRing[T]
+	enc func(int) T
+	dec func(T) int
+}
+
+func (a *ringOf[T]) Push(v int) bool { return a.r.Push(a.enc(v)) }
+func (a *ringOf[T]) Pop() (int, bool) {
+	v, ok := a.r.Pop()
+	if !ok {
+		return 0, false
+	}
+	return a.dec(v), true
+}
+func (a *ringOf[T]) PushWait(v int, d time.Duration) bool { return a.r.PushWait(a.enc(v), d) }
+func (a *ringOf[T]) PopWait(d time.Duration) (int, bool) {
+	v, ok := a.r.PopWait(d)
+	if !ok {
+		return 0, false
+	}
+	return a.dec(v), true
+}
+func (a *ringOf[T]) Len() int      { return a.r.Len() }
+func (a *ringOf[T]) IsEmpty() bool { return a.r.IsEmpty() }
+func (a *ringOf[T]) IsFull() bool  { return a.r.IsFull() }
+func (a *ringOf[T]) Cap() int      { return a.r.Cap() }
+
+// triple is a three-word value whose words determine each other: a torn or half-cleared copy
+// decodes to a value nobody pushed (value_invented).
+type triple struct {
+	A int
+	B int64
+	C uint64
+}
+
+const tornBase = 0x7ead0000
+
+func newRing(elem, req int) (ringAPI, *ringz.SyncRing[int]) {
+	switch elem {
+	case 1:
+		return &ringOf[string]{r: ringz.NewSync[string](req), enc: func(v int) string { return "v" + strconv.Itoa(v) },
+			dec: func(s string) int {
+				n, err := strconv.Atoi(strings.TrimPrefix(s, "v"))
+				if err != nil || !strings.HasPrefix(s, "v") {
+					return tornBase + len(s)
+				}
+				return n
+			}}, nil
+	case 2:
+		return &ringOf[triple]{r: ringz.NewSync[triple](req), enc: func(v int) triple { return triple{v, ^int64(v), uint64(v) * 3} },
+			dec: func(t triple) int {
+				if t.B != ^int64(t.A) || t.C != uint64(t.A)*3 {
+					return tornBase + 1000 + t.A&0xff
+				}
+				return t.A
+			}}, nil
+	case 3:
+		return &ringOf[*int]{r: ringz.NewSync[*int](req), enc: func(v int) *int { return &v },
+			dec: func(p *int) int {
+				if p == nil {
+					return tornBase + 2000
+				}
+				return *p
+			}}, nil
+	case 4:
+		return &ringOf[any]{r: ringz.NewSync[any](req), enc: func(v int) any { return v },
+			dec: func(x any) int {
+				if n, ok := x.(int); ok {
+					return n
+				}
+				return tornBase + 3000
+			}}, nil
+	}
+	a := &ringOf[int]{r: ringz.NewSync[int](req), enc: func(v int) int { return v }, dec: func(v int) int { return v }}
+	return a, &a.r
+}
+
 type inst struct {
-	r    *ringz.SyncRing[int]
+	r    ringAPI
+	ri   *ringz.SyncRing[int] // the int ring itself (counter fast-forward), nil for other element types
 	cap  int
 	init []int
 }
@@ -165,6 +259,7 @@ func gen(r *sim.Rng, tier string) *sim.Case {
 		}
 	}
 	c.Params["cap_req"] = req
+	c.Params["elem"] = r.Pick(6, 2, 3, 2, 1) // element type: int, string, three-word struct, pointer, interface
 	capEff := 2
 	for capEff < req {
 		capEff *= 2
@@ -265,8 +360,8 @@ var ffSkipped, ffUsed int
 
 func build(c *sim.Case) enga.Instance {
 	req := c.P("cap_req")
-	ring := ringz.NewSync[int](req)
-	x := &inst{r: &ring, cap: ring.Cap()}
+	ring, ri := newRing(c.P("elem"), req)
+	x := &inst{r: ring, ri: ri, cap: ring.Cap()}
 	pairs := c.P("pairs")
 	if pairs > 0 {
 		if pairs <= 3*x.cap {
@@ -274,7 +369,7 @@ func build(c *sim.Case) enga.Instance {
 				x.r.Push(0xE000 + i)
 				x.r.Pop()
 			}
-		} else if x.cap <= 16 && validateFF(req) && fastForward(x.r, uint32(pairs)) {
+		} else if x.ri != nil && x.cap <= 16 && validateFF(req) && fastForward(x.ri, uint32(pairs)) {
 			ffUsed++
 		} else {
 			ffSkipped++
@@ -643,5 +738,7 @@ func main() {
 		wrapCheck(p)
 		return
 	}
-	enga.Main(&enga.Spec{ID: "C01", Gen: gen, New: build, Check: check})
+	enga.Main(&enga.Spec{ID: "C01", Gen: gen, New: build, Check: check,
+		// everything but the wait-for-ever calls must finish by itself
+		Bounded: func(op sim.Op) bool { return !((op.Op == "PushWait" || op.Op == "PopWait") && op.D < 0) }})
 }
